@@ -30,6 +30,13 @@
 //	                  Tick,Sleep}, every package-level function of math/rand (and /v2) except the deterministic
 //	                  constructors New, NewSource, NewZipf, NewPCG, NewChaCha8, and every function or variable of crypto/rand.
 //
+//	G   f -> site     (kind "global") for every place where f writes process-wide state: an assignment, ++/--, element or field
+//	                  store, or delete() whose target is rooted at a package-level variable (of the module or of a
+//	                  dependency), and every method call on a package-level variable (sync.Map/Pool, caches, ledgers, …:
+//	                  whether the method mutates is decided by review of the allow-list, not here). Writes through a local
+//	                  alias of a global (p := &global; *p = …) are not seen.
+//	R   f -> site     (kind "goroutine") for every `go` statement and every `select` with two or more communication clauses in f.
+//
 // Not followed: the bodies of dependencies (third-party and standard library; thorough tier can load them with
 // `all`), package `common/log` of the module (log output is not part of an execution result), reflection and unsafe.
 package main
@@ -57,6 +64,7 @@ type node struct {
 	pos   string
 	succ  map[int]bool
 	site  bool   // forbidden-sink use site
+	kind  string // site kind: "clock" (wall clock / timers / random sources), "global" (process-wide state written), "goroutine"
 	key   string // site key
 	entry string // why it is an entry ("" = not an entry)
 	ext   map[string]bool // packages outside the module whose functions or variables this function uses
@@ -123,6 +131,19 @@ func (b *builder) newNode(name, pos string) *node {
 
 func inModule(p *types.Package) bool {
 	return p != nil && (p.Path() == module || strings.HasPrefix(p.Path(), module+"/"))
+}
+
+// statelessCall: a value-receiver method called on a package-level variable that is itself a plain value (struct, basic,
+// array): the method works on a copy and cannot change the variable (encoding/binary.LittleEndian and the like).
+func statelessCall(v *types.Var, f *types.Func) bool {
+	if _, ptr := f.Type().(*types.Signature).Recv().Type().(*types.Pointer); ptr {
+		return false
+	}
+	switch v.Type().Underlying().(type) {
+	case *types.Struct, *types.Basic, *types.Array:
+		return true
+	}
+	return false
 }
 
 // isExtMethod: a method declared outside the module.
@@ -448,21 +469,74 @@ func main() {
 				from.succ[t.id] = true
 			}
 		}
+		addSite := func(kind, what string, p token.Pos) {
+			base := from.name + "->" + what
+			ord := b.siteCount[base]
+			b.siteCount[base]++
+			s := b.newNode("site:"+base, b.pos(p))
+			s.site = true
+			s.kind = kind
+			s.key = fmt.Sprintf("%s#%d", base, ord)
+			from.succ[s.id] = true
+		}
+		// globalRoot: the package-level variable an lvalue / receiver expression is rooted at, if any
+		var globalRoot func(e ast.Expr) *types.Var
+		globalRoot = func(e ast.Expr) *types.Var {
+			switch e := e.(type) {
+			case *ast.Ident:
+				if v, ok := info.Uses[e].(*types.Var); ok && v.Pkg() != nil && v.Parent() == v.Pkg().Scope() {
+					return v
+				}
+			case *ast.SelectorExpr:
+				if v, ok := info.Uses[e.Sel].(*types.Var); ok && v.Pkg() != nil && v.Parent() == v.Pkg().Scope() {
+					return v // pkg.Var
+				}
+				return globalRoot(e.X)
+			case *ast.IndexExpr:
+				return globalRoot(e.X)
+			case *ast.StarExpr:
+				return globalRoot(e.X)
+			case *ast.ParenExpr:
+				return globalRoot(e.X)
+			case *ast.SliceExpr:
+				return globalRoot(e.X)
+			}
+			return nil
+		}
+		varName := func(v *types.Var) string {
+			pp := v.Pkg().Path()
+			if inModule(v.Pkg()) {
+				pp = rel(pp)
+			}
+			return pp + "." + v.Name()
+		}
 		ast.Inspect(bd.body, func(x ast.Node) bool {
 			switch x := x.(type) {
+			case *ast.GoStmt:
+				addSite("goroutine", "go", x.Pos())
+			case *ast.SelectStmt:
+				if x.Body != nil && len(x.Body.List) >= 2 {
+					addSite("goroutine", "select", x.Pos())
+				}
+			case *ast.AssignStmt:
+				if x.Tok != token.DEFINE {
+					for _, l := range x.Lhs {
+						if v := globalRoot(l); v != nil && !opaquePkgs[v.Pkg().Path()] {
+							addSite("global", "write:"+varName(v), l.Pos())
+						}
+					}
+				}
+			case *ast.IncDecStmt:
+				if v := globalRoot(x.X); v != nil && !opaquePkgs[v.Pkg().Path()] {
+					addSite("global", "write:"+varName(v), x.Pos())
+				}
 			case *ast.Ident:
 				o := info.Uses[x]
 				if o == nil {
 					return true
 				}
 				if k := sinkKind(o); k != "" {
-					base := from.name + "->" + k
-					ord := b.siteCount[base]
-					b.siteCount[base]++
-					s := b.newNode("site:"+base, b.pos(x.Pos()))
-					s.site = true
-					s.key = fmt.Sprintf("%s#%d", base, ord)
-					from.succ[s.id] = true
+					addSite("clock", k, x.Pos())
 					return true
 				}
 				if o.Pkg() != nil && !inModule(o.Pkg()) && o.Parent() == o.Pkg().Scope() || isExtMethod(o) {
@@ -489,6 +563,20 @@ func main() {
 					}
 				}
 			case *ast.CallExpr:
+				if id, ok := ast.Unparen(x.Fun).(*ast.Ident); ok && id.Name == "delete" && len(x.Args) == 2 {
+					if _, isB := info.Uses[id].(*types.Builtin); isB {
+						if v := globalRoot(x.Args[0]); v != nil && !opaquePkgs[v.Pkg().Path()] {
+							addSite("global", "write:"+varName(v), x.Pos())
+						}
+					}
+				}
+				if sel, ok := ast.Unparen(x.Fun).(*ast.SelectorExpr); ok {
+					if f, isF := info.Uses[sel.Sel].(*types.Func); isF && f.Type().(*types.Signature).Recv() != nil {
+						if v := globalRoot(sel.X); v != nil && !opaquePkgs[v.Pkg().Path()] && !statelessCall(v, f) {
+							addSite("global", "call:"+varName(v)+"."+f.Name(), x.Pos())
+						}
+					}
+				}
 				// E3: calls that leave the module (or go through a function value) may call back into methods of the
 				// module types they are handed
 				external, dynamic := false, false
@@ -716,6 +804,7 @@ func main() {
 	}
 	type siteOut struct {
 		Key       string   `json:"key"`
+		Kind      string   `json:"kind"`
 		Pos       string   `json:"pos"`
 		Reachable bool     `json:"reachable"`
 		Node      int      `json:"node"`
@@ -728,7 +817,7 @@ func main() {
 		if !n.site {
 			continue
 		}
-		s := siteOut{Key: n.key, Pos: n.pos, Reachable: reach[n.id], Node: newID[n.id]}
+		s := siteOut{Key: n.key, Kind: n.kind, Pos: n.pos, Reachable: reach[n.id], Node: newID[n.id]}
 		if reach[n.id] {
 			s.PathIDs = pathTo(n.id)
 			for c := n.id; c != -1; c = parent[c] {
@@ -839,15 +928,25 @@ func main() {
 			es = append(es, fmt.Sprint(newID[e]))
 		}
 		fmt.Fprintf(w, "def entries : List Nat := [%s]\n\n", strings.Join(es, ","))
-		fmt.Fprintf(w, "/-- Every use site of a forbidden sink in the module: (node id, site key). -/\ndef sinkSites : List (Nat × String) := [\n")
-		for i, s := range sites {
-			sep := ","
-			if i == len(sites)-1 {
-				sep = ""
+		for _, kd := range []struct{ kind, def, doc string }{
+			{"clock", "sinkSites", "Every use site of a wall-clock / timer / random-source sink in the module: (node id, site key)."},
+			{"global", "globalWriteSites", "Every place where a function writes process-wide state (target rooted at a package-level variable) or calls a method on a package-level variable."},
+			{"goroutine", "goroutineSites", "Every `go` statement and every `select` with two or more communication clauses."},
+		} {
+			fmt.Fprintf(w, "/-- %s -/\ndef %s : List (Nat × String) := [\n", kd.doc, kd.def)
+			first := true
+			for _, s := range sites {
+				if s.Kind != kd.kind {
+					continue
+				}
+				if !first {
+					fmt.Fprintf(w, ",\n")
+				}
+				first = false
+				fmt.Fprintf(w, "  (%d, %q)", s.Node, s.Key)
 			}
-			fmt.Fprintf(w, "  (%d, %q)%s\n", s.Node, s.Key, sep)
+			fmt.Fprintf(w, "\n]\n\n")
 		}
-		fmt.Fprintf(w, "]\n\n")
 		// certificate: bit i set iff kept node i is reachable
 		bits := make([]byte, (len(keep)+7)/8)
 		for i, id := range keep {
